@@ -222,13 +222,13 @@ FLOORS = [  # (function, field substring, operation kinds, required set, what)
     ("_mi_arena_segment_mark_abandoned", "thread_id", ("store",), REL, "publication of an abandoned segment"),
     ("_mi_arena_segment_clear_abandoned", "thread_id", ("store",), REL, "ownership claim"),
     ("mi_segment_reclaim", "thread_id", ("store",), REL, "ownership claim"),
-    ("_mi_bitmap_claim", "bitmap", ("fetch_or",), {4, 5}, "bitmap claim is acquire+release"),
-    ("_mi_bitmap_unclaim", "bitmap", ("fetch_and",), {4, 5}, "bitmap release is acquire+release"),
-    ("_mi_bitmap_try_claim", "bitmap", ("cas_strong", "cas_weak"), {4, 5}, "bitmap claim"),
-    ("_mi_bitmap_try_find_claim_field", "field", ("cas_strong", "cas_weak"), {4, 5}, "bitmap claim"),
-    ("mi_bitmap_try_find_claim_field_across", "field", ("cas_strong", "cas_weak"), {4, 5}, "bitmap claim across fields"),
-    ("_mi_bitmap_claim_across", "field", ("fetch_or",), {4, 5}, "bitmap claim across fields"),
-    ("_mi_bitmap_unclaim_across", "field", ("fetch_and",), {4, 5}, "bitmap release across fields"),
+    ("_mi_bitmap_claim", "*", ("fetch_or",), {4, 5}, "bitmap claim is acquire+release"),
+    ("_mi_bitmap_unclaim", "*", ("fetch_and",), {4, 5}, "bitmap release is acquire+release"),
+    ("_mi_bitmap_try_claim", "*", ("cas_strong", "cas_weak"), {4, 5}, "bitmap claim"),
+    ("_mi_bitmap_try_find_claim_field", "*", ("cas_strong", "cas_weak"), {4, 5}, "bitmap claim"),
+    ("mi_bitmap_try_find_claim_field_across", "*", ("cas_strong", "cas_weak"), {4, 5}, "bitmap claim across fields"),
+    ("_mi_bitmap_claim_across", "*", ("fetch_or",), {4, 5}, "bitmap claim across fields"),
+    ("_mi_bitmap_unclaim_across", "*", ("fetch_and",), {4, 5}, "bitmap release across fields"),
     ("mi_arena_add", "mi_arenas", ("store",), REL, "publication of a new arena"),
     ("mi_arena_from_index", "mi_arenas", ("load",), ACQ, "the arena is dereferenced"),
     ("mi_segment_map_index_of", "mi_segment_map", ("cas_strong", "cas_weak"), REL, "publication of a map part"),
@@ -241,7 +241,7 @@ def r6(ctx, prog):
     R = ctx.rule("C02.R6", "memory-order floors: publications are at least release, consumptions that dereference what was published at least acquire (stronger accepted)")
     for fname, fld, ops, need, what in FLOORS:
         f = prog.fn(fname)
-        sites = [e for e in f.all(kind="AtomicExpr") if f.nodes[e]["aop"] in ops and fld in f.text(f.nodes[e]["ptr"])]
+        sites = [e for e in f.all(kind="AtomicExpr") if f.nodes[e]["aop"] in ops and (fld == "*" or fld in f.text(f.nodes[e]["ptr"]))]   # "*": every such operation of the function (bitmap words reached through locals)
         if not sites:
             ctx.fail(R, f.where(), "no %s on %s found (the operation is no longer atomic?)" % ("/".join(ops), fld), key="C02.R6:%s:%s:missing" % (fname, fld))
             continue
